@@ -11,6 +11,7 @@ Anything outside the supported subset raises ``Undecidable`` - callers turn that
 from __future__ import annotations
 
 import ast
+import re as _re
 from dataclasses import dataclass, field
 from typing import Any, Callable, Dict, List, Optional
 
@@ -57,6 +58,11 @@ class Rec:
 
     def __repr__(self):
         return f"{self.cls}({', '.join(f'{k}={v!r}' for k, v in self.fields.items())})"
+
+
+@dataclass
+class FuncVal:
+    node: ast.FunctionDef
 
 
 class _Return(Exception):
@@ -155,7 +161,25 @@ class Folder:
                     self.env.setdefault(al.asname or al.name, Opaque(f"{s.module}.{al.name}"))
             return
         if isinstance(s, (ast.FunctionDef,)):
-            self.env[s.name] = Opaque(s.name)
+            self.env[s.name] = FuncVal(s)
+            return
+        if isinstance(s, ast.Try):
+            try:
+                self.block(s.body)
+            except Raised as r:
+                for h in s.handlers:
+                    names = []
+                    if h.type is not None:
+                        names = [norm(x) for x in (h.type.elts if isinstance(h.type, ast.Tuple) else [h.type])]
+                    if h.type is None or r.exc_type in names or "Exception" in names:
+                        self.block(h.body)
+                        break
+                else:
+                    self.block(s.finalbody)
+                    raise
+            else:
+                self.block(s.orelse)
+            self.block(s.finalbody)
             return
         raise Undecidable(f"statement {type(s).__name__} at line {s.lineno}")
 
@@ -398,6 +422,18 @@ class Folder:
                 r = self.isinstance_hook(v0, norm(e.args[1]))
                 if r is not None:
                     return r
+            tnames = [norm(x) for x in (e.args[1].elts if isinstance(e.args[1], ast.Tuple) else [e.args[1]])]
+            known = {"str": str, "int": int, "float": float, "list": list, "dict": dict, "tuple": tuple, "bool": bool,
+                     "complex": complex, "set": (set, frozenset)}
+            if not isinstance(v0, (Opaque, Rec, sp.Basic)):
+                if all(t in known for t in tnames):
+                    return isinstance(v0, tuple(known[t] if not isinstance(known[t], tuple) else known[t][0] for t in tnames)) or \
+                        any(isinstance(known[t], tuple) and isinstance(v0, known[t]) for t in tnames)
+                # numpy / sympy types: a native python constant is none of them, except int/float families
+                if all(t in known or t in ("ndarray", "np.ndarray", "integer", "np.integer", "floating", "np.floating", "Symbol", "np.matrix") for t in tnames):
+                    return any(t in known and isinstance(v0, known[t] if not isinstance(known[t], tuple) else known[t]) for t in tnames)
+            if isinstance(v0, Rec) and all(t in known for t in tnames):
+                return False
             raise Undecidable(f"isinstance({v0!r}, {norm(e.args[1])})")
         args = []
         for a in e.args:
@@ -415,6 +451,11 @@ class Folder:
                     return r
             raise Undecidable(f"isinstance({args[0]!r}, {norm(e.args[1])})")
         if fn in ("dict", "list", "set", "tuple", "sorted", "len", "str", "frozenset", "reversed", "range", "abs", "int", "float", "max", "min", "sum", "zip", "enumerate") and not kwargs:
+            if fn in ("int", "float") and len(args) == 1 and isinstance(args[0], str):
+                try:
+                    return {"int": int, "float": float}[fn](args[0])
+                except ValueError:
+                    raise Raised("ValueError", e)
             try:
                 f = {"dict": dict, "list": list, "set": frozenset, "tuple": tuple, "sorted": lambda x: sorted(x, key=repr),
                      "len": len, "str": str, "frozenset": frozenset, "reversed": lambda x: list(reversed(x)),
@@ -423,9 +464,39 @@ class Folder:
                 return f(*args)
             except Exception as ex:
                 raise Undecidable(f"{fn}: {ex}")
+        if fn in ("re.split", "re.findall", "re.sub", "re.match", "re.search") and not kwargs and all(isinstance(a, str) for a in args):
+            try:
+                r = getattr(_re, fn[3:])(*args)
+            except Exception as ex:
+                raise Undecidable(f"{fn}: {ex}")
+            if fn in ("re.match", "re.search"):
+                return None if r is None else Opaque("re.Match")
+            return r
+        if fn == "eval" and len(args) == 1 and isinstance(args[0], str):
+            try:
+                return ast.literal_eval(args[0])
+            except Exception:
+                raise Undecidable(f"eval({args[0]!r})")
+        if fn == "hasattr" and len(args) == 2 and isinstance(args[1], str):
+            if isinstance(args[0], Rec):
+                return args[1] in args[0].fields or args[1] in ("__iter__",) and isinstance(args[0].fields.get("_iter"), list)
+            if isinstance(args[0], (list, tuple, str, dict, set, frozenset)):
+                return hasattr(args[0], args[1])
+            if isinstance(args[0], (int, float)) and not isinstance(args[0], bool):
+                return hasattr(args[0], args[1])
+            raise Undecidable(f"hasattr({args[0]!r}, {args[1]!r})")
+        if fn == "type" and len(args) == 1 and not isinstance(args[0], (Opaque, Rec, sp.Basic)):
+            return Opaque("type:" + type(args[0]).__name__)
         if isinstance(e.func, ast.Attribute):
             obj = self.expr(e.func.value)
             m = e.func.attr
+            if isinstance(obj, Rec) and m == "__getattribute__" and len(args) == 1 and args[0] in obj.fields:
+                return obj.fields[args[0]]
+            if isinstance(obj, str) and m in ("split", "join", "startswith", "endswith", "replace", "rstrip", "lstrip", "count", "find", "isdigit", "format") and not kwargs:
+                try:
+                    return getattr(obj, m)(*args)
+                except Exception as ex:
+                    raise Undecidable(f"str.{m}: {ex}")
             if isinstance(obj, str) and m in ("lower", "upper", "strip", "capitalize", "title") and not args:
                 return getattr(obj, m)()
             if isinstance(obj, dict) and m in ("keys", "values", "items", "get", "copy") and not kwargs:
@@ -446,6 +517,18 @@ class Folder:
             fv = self.expr(e.func)
         except Undecidable:
             fv = None
+        if isinstance(fv, FuncVal):
+            sub = Folder(env=dict(self.env), ctors=None, opaque_unknown=self.opaque_unknown, isinstance_hook=self.isinstance_hook)
+            sub.ctors = self.ctors
+            fa = fv.node.args
+            names = [a.arg for a in fa.posonlyargs + fa.args]
+            bind = dict(zip(names, args))
+            bind.update(kwargs)
+            defaults = fa.defaults
+            for a, dflt in zip(names[len(names) - len(defaults):], defaults):
+                if a not in bind:
+                    bind[a] = sub.expr(dflt)
+            return sub.run_function(fv.node, bind)
         if isinstance(fv, Opaque):
             return Opaque(fv.text, tuple(args), tuple(sorted(kwargs.items(), key=lambda kv: kv[0])))
         raise Undecidable(f"call {fn}")
